@@ -279,6 +279,12 @@ class Gen:
                 mspecs.append(self.generic())
             nmand = len(row["mandatory"])
             mand, rest = mspecs[:nmand], mspecs[nmand:]
+            if mspecs and r.random() < 0.25:
+                # a member repeated byte for byte (two equal Vendor-Ids, the same offending AVP reported twice): another
+                # object with the same encoding, listed and encoded twice
+                rest.append(r.choice(mspecs))
+                mspecs = mand + rest
+                self.twin_members = getattr(self, "twin_members", 0) + 1
             r.shuffle(rest)
             path = None
             if form == "list":
